@@ -434,3 +434,357 @@ Proof. exact (export_sound_output (Z -> Z) eqZ zeroZ addZ eqZ_equiv addZ_proper 
 
 Print Assumptions export_sound_Zsignal.
 Print Assumptions export_sound_output_Zsignal.
+
+(* ================================================================ networks of concrete PIT layers *)
+Require Plinio.Proofs.Conv.
+Module PC := Plinio.Proofs.Conv.
+Require Import Plinio.Model.Masks.
+
+Lemma Forall2_map_seq {A} (Rel : A -> A -> Prop) (F G : nat -> A) n :
+  (forall i, i < n -> Rel (F i) (G i)) -> Forall2 Rel (map F (seq 0 n)) (map G (seq 0 n)).
+Proof.
+  intro H. assert (K : forall l, (forall i, In i l -> i < n) -> Forall2 Rel (map F l) (map G l)).
+  { induction l as [|a l IH]; intro Hl; [constructor|]. cbn. constructor; [apply H, Hl; left; reflexivity|apply IH; intros i Hi; apply Hl; right; exact Hi]. }
+  apply K. intros i Hi. apply in_seq in Hi. lia.
+Qed.
+Lemma Forall2_select {A} (Rel : A -> A -> Prop) m l l' : Forall2 Rel l l' -> Forall2 Rel (select m l) (select m l').
+Proof.
+  intro H. revert m. induction H as [|x y l l' Hxy Hl IH]; intros [|b m]; cbn; try constructor.
+  destruct b; [constructor; [exact Hxy|apply IH]|apply IH].
+Qed.
+
+Section ConcreteProofs.
+Variable R : Type.
+Variables (r0 r1 : R) (radd rmul : R -> R -> R).
+Hypothesis HL : PC.laws r0 r1 radd rmul.
+
+Let Hadd0 : forall x, radd r0 x = x := proj1 HL.
+Let Hm0l : forall x, rmul r0 x = r0 := proj1 (proj2 HL).
+Let Hm0r : forall x, rmul x r0 = r0 := proj1 (proj2 (proj2 HL)).
+Let Hm1l : forall x, rmul r1 x = x := proj1 (proj2 (proj2 (proj2 HL))).
+Let Hm1r : forall x, rmul x r1 = x := proj2 (proj2 (proj2 (proj2 HL))).
+
+Notation SR := (SR R).
+Notation eqR := (eqR R).
+Notation zeroR := (zeroR R r0).
+Notation addR := (addR R radd).
+Notation InvR := (Inv SR eqR zeroR).
+Notation GoodR := (Good SR eqR zeroR).
+
+Lemma eqR_equiv : Equivalence eqR.
+Proof. split; [intros f i; reflexivity|intros f g H i; symmetry; apply H|intros f g h H1 H2 i; rewrite H1; apply H2]. Qed.
+Lemma addR_proper : forall a a' b b', eqR a a' -> eqR b b' -> eqR (addR a b) (addR a' b').
+Proof. intros a a' b b' Ha Hb i. unfold PitNet.addR. rewrite Ha, Hb. reflexivity. Qed.
+Lemma addR_0_l : forall s, eqR (addR zeroR s) s.
+Proof. intros s i. unfold PitNet.addR, PitNet.zeroR. apply Hadd0. Qed.
+
+Lemma Forall2_eqR_refl l : Forall2 eqR l l.
+Proof. induction l; constructor; auto. intro; reflexivity. Qed.
+Lemma Forall2_eqR_sym l l' : Forall2 eqR l l' -> Forall2 eqR l' l.
+Proof. induction 1; constructor; auto. intro i; symmetry; auto. Qed.
+Lemma Forall2_eqR_trans l1 l2 l3 : Forall2 eqR l1 l2 -> Forall2 eqR l2 l3 -> Forall2 eqR l1 l3.
+Proof.
+  intro H. revert l3. induction H as [|x y l l' Hxy Hl IH]; intros l3 H3; inversion H3; subst; constructor.
+  - intro i. rewrite Hxy. auto.
+  - apply IH. assumption.
+Qed.
+
+Lemma Inv_proper a tp tp' te te' : Forall2 eqR tp' tp -> Forall2 eqR te' te -> InvR a tp' te' -> InvR a tp te.
+Proof.
+  intros Hp He (HL1 & HD & HF). pose proof (Forall2_len _ _ _ Hp) as Hlen. split; [lia|split].
+  - intros c Hc Hd i. specialize (HD c Hc Hd i).
+    pose proof (Forall2_nth eqR tp' tp zeroR zeroR Hp c ltac:(lia)) as E. rewrite <- E. exact HD.
+  - eapply Forall2_eqR_trans; [apply Forall2_eqR_sym; exact He|].
+    eapply Forall2_eqR_trans; [exact HF|]. apply Forall2_select. exact Hp.
+Qed.
+
+Lemma sumR_at (l : list SR) i : sumS SR zeroR addR l i = rsum r0 radd (map (fun f => f i) l).
+Proof. induction l as [|f l IH]; [reflexivity|]. cbn [sumS fold_right map rsum]. change (radd (f i) (sumS SR zeroR addR l i) = radd (f i) (rsum r0 radd (map (fun f => f i) l))). rewrite IH. reflexivity. Qed.
+
+Lemma bias_at (b : option (list R)) co (acc : SR) i :
+  addR (bconst R r0 b co) acc i = addbias r0 radd b co (acc i).
+Proof. unfold PitNet.addR, bconst, of0, addbias. destruct b; [reflexivity|apply Hadd0]. Qed.
+
+Lemma taps_xzero wk K d (x : Z -> R) u : (forall v, x v = r0) -> taps r0 radd rmul wk K d x u = r0.
+Proof. intro H. unfold taps. apply (PC.rsum_zero R r0 radd Hadd0). intros j _. rewrite H. apply Hm0r. Qed.
+Lemma taps_xext wk K d (x x' : Z -> R) u : (forall v, x v = x' v) -> taps r0 radd rmul wk K d x u = taps r0 radd rmul wk K d x' u.
+Proof. intro H. unfold taps. apply f_equal. apply map_ext. intro j. rewrite H. reflexivity. Qed.
+Lemma taps2_xext wk kh kw d (x x' : Z -> Z -> R) u v : (forall a b, x a b = x' a b) -> taps2 r0 radd rmul wk kh kw d x u v = taps2 r0 radd rmul wk kh kw d x' u v.
+Proof. intro H. unfold taps2. apply f_equal. apply map_ext. intro a. apply f_equal. apply map_ext. intro b. rewrite H. reflexivity. Qed.
+
+(* ---- the per-channel operators are zero-preserving and extensional *)
+Lemma T1_zero w tm K d s co wi : eqR (T1 R r0 r1 radd rmul w tm K d s co wi zeroR) zeroR.
+Proof. intro i. unfold T1, of1. apply taps_xzero. intro v. reflexivity. Qed.
+Lemma T1_resp w tm K d s co wi : respects SR eqR (T1 R r0 r1 radd rmul w tm K d s co wi).
+Proof. intros sg sg' H i. unfold T1, of1. apply taps_xext. intro v. unfold padl, as1. apply H. Qed.
+Lemma T2_zero w kh kw d s ph pw co wi : eqR (T2 R r0 radd rmul w kh kw d s ph pw co wi zeroR) zeroR.
+Proof. intro i. unfold T2, of2. apply (PC.taps2_zero R r0 radd rmul Hadd0 Hm0r). intros a b. reflexivity. Qed.
+Lemma T2_resp w kh kw d s ph pw co wi : respects SR eqR (T2 R r0 radd rmul w kh kw d s ph pw co wi).
+Proof. intros sg sg' H i. unfold T2, of2. apply taps2_xext. intros a b. unfold as2. apply H. Qed.
+Lemma T0_zero w co ci : eqR (T0 R r0 rmul w co ci zeroR) zeroR.
+Proof. intro i. unfold T0, of0, as0. apply Hm0r. Qed.
+Lemma T0_resp w co ci : respects SR eqR (T0 R r0 rmul w co ci).
+Proof. intros sg sg' H i. unfold T0, of0, as0. rewrite H. reflexivity. Qed.
+Lemma postbn_resp bn co : respects SR eqR (postbn R r0 radd rmul bn co).
+Proof. intros sg sg' H i. unfold postbn. rewrite H. reflexivity. Qed.
+
+Lemma calive_node_of al nd : alive_node SR al (node_of R r0 r1 radd rmul nd) = calive_node R al nd.
+Proof. destruct nd as [c|src l m|src f|src mult f|a b|srcs]; try reflexivity. destruct l as [fold dw ? ? ? ? ? ? ? ? ? ?|fold dw ? ? ? ? ? ? ? ? ? ?|fold ? ? ? ?]; try destruct dw; reflexivity. Qed.
+
+Lemma cwf_node_wf n al nd : cwf_node R r0 n al nd -> wf_node SR eqR zeroR n al (node_of R r0 r1 radd rmul nd).
+Proof.
+  destruct nd as [c|src l m|src f|src mult f|a b|srcs]; cbn; auto.
+  intros [Hs Hw]. destruct l as [fold dw w b bn cin K d s tm K' sp|fold dw w b bn cin kh kw d s ph pw|fold w b bn cin]; cbn in Hw |- *.
+  - destruct Hw as (_ & _ & _ & _ & _ & Hmin). destruct dw; cbn.
+    + repeat split; auto using T1_resp, postbn_resp. all: try (intro; apply T1_resp).
+    + repeat split; auto using T1_zero, T1_resp, postbn_resp.
+  - destruct Hw as (_ & _ & _ & Hmin). destruct dw; cbn.
+    + repeat split; auto using T2_resp, postbn_resp. all: try (intro; apply T2_resp).
+    + repeat split; auto using T2_zero, T2_resp, postbn_resp.
+  - destruct Hw as (_ & _ & _ & Hmin). repeat split; auto using T0_zero, T0_resp, postbn_resp.
+Qed.
+
+(* ---- one evaluation step of the abstract node IS the concrete layer of Model/Conv.v : masked (PIT) side *)
+Notation P1 := (T1 R r0 r1 radd rmul).
+Notation P2 := (T2 R r0 radd rmul).
+Notation P0 := (T0 R r0 rmul).
+Notation bcst := (bconst R r0).
+Notation pbn := (postbn R r0 radd rmul).
+Notation gateR := (gate SR zeroR).
+Notation sumR := (sumS SR zeroR addR).
+
+Lemma pit1_spec (fold dw : bool) (w : w3 R) (b : option (list R)) (bn : option (list R * list R)) cin K d s tm (m : list bool) (xs : list SR) co :
+  length m = length w -> PC.bias_ok R b (length m) ->
+  eqR (gateR (nth co m false) (pbn (if fold then None else bn) co
+         (addR (bcst b co) (if dw then P1 w tm K d s co 0 (nth co xs zeroR)
+                            else sumR (map (fun ci => P1 w tm K d s co ci (nth ci xs zeroR)) (seq 0 cin))))))
+      (of1 R (fun t => pit_conv1d_at r0 r1 radd rmul true fold dw w b bn cin K (Z.of_nat d) (Z.of_nat s) m tm
+                         (fun ci => padl ((K - 1) * d) (as1 R (nth ci xs zeroR))) co t)).
+Proof.
+  intros Hlen Hb i. unfold of1.
+  assert (Core : (addR (bcst b co) (if dw then P1 w tm K d s co 0 (nth co xs zeroR)
+                            else sumR (map (fun ci => P1 w tm K d s co ci (nth ci xs zeroR)) (seq 0 cin)))) i
+                 = conv1d_at r0 radd rmul dw (mask_w3_time r0 r1 rmul tm w) b cin K (Z.of_nat d) (Z.of_nat s)
+                     (fun ci => padl ((K - 1) * d) (as1 R (nth ci xs zeroR))) co (nth 0 i 0%Z)).
+  { rewrite bias_at. unfold conv1d_at. f_equal. destruct dw; [reflexivity|]. rewrite sumR_at, map_map. reflexivity. }
+  destruct fold.
+  - destruct (nth co m false) eqn:E; cbn [gate].
+    + rewrite (PC.fold_alive_conv1d R r0 r1 radd rmul Hm0l Hm1r) by assumption. unfold postbn. cbn [bn_at]. exact Core.
+    + rewrite (PC.dead_out_zero_conv1d_fold R r0 r1 radd rmul Hadd0 Hm0l Hm0r) by assumption. reflexivity.
+  - unfold pit_conv1d_at. destruct (nth co m false) eqn:E; cbn [gate Conv.bit].
+    + rewrite Hm1r. unfold postbn. rewrite Core. reflexivity.
+    + rewrite Hm0r. reflexivity.
+Qed.
+
+Lemma pit2_spec (fold dw : bool) (w : w4 R) (b : option (list R)) (bn : option (list R * list R)) cin kh kw d s ph pw (m : list bool) (xs : list SR) co :
+  length m = length w -> PC.bias_ok R b (length m) ->
+  eqR (gateR (nth co m false) (pbn (if fold then None else bn) co
+         (addR (bcst b co) (if dw then P2 w kh kw d s ph pw co 0 (nth co xs zeroR)
+                            else sumR (map (fun ci => P2 w kh kw d s ph pw co ci (nth ci xs zeroR)) (seq 0 cin))))))
+      (of2 R (fun h v => pit_conv2d_at r0 r1 radd rmul true fold dw w b bn cin kh kw (Z.of_nat d) (Z.of_nat s) (Z.of_nat ph) (Z.of_nat pw) m
+                         (fun ci => as2 R (nth ci xs zeroR)) co h v)).
+Proof.
+  intros Hlen Hb i. unfold of2.
+  assert (Core : (addR (bcst b co) (if dw then P2 w kh kw d s ph pw co 0 (nth co xs zeroR)
+                            else sumR (map (fun ci => P2 w kh kw d s ph pw co ci (nth ci xs zeroR)) (seq 0 cin)))) i
+                 = conv2d_at r0 radd rmul dw w b cin kh kw (Z.of_nat d) (Z.of_nat s) (Z.of_nat ph) (Z.of_nat pw)
+                     (fun ci => as2 R (nth ci xs zeroR)) co (nth 0 i 0%Z) (nth 1 i 0%Z)).
+  { rewrite bias_at. unfold conv2d_at. f_equal. destruct dw; [reflexivity|]. rewrite sumR_at, map_map. reflexivity. }
+  destruct fold.
+  - destruct (nth co m false) eqn:E; cbn [gate].
+    + rewrite (PC.fold_alive_conv2d R r0 r1 radd rmul Hm0l Hm1r) by assumption. unfold postbn. cbn [bn_at]. exact Core.
+    + rewrite (PC.dead_out_zero_conv2d_fold R r0 r1 radd rmul Hadd0 Hm0l Hm0r) by assumption. reflexivity.
+  - unfold pit_conv2d_at. destruct (nth co m false) eqn:E; cbn [gate Conv.bit].
+    + rewrite Hm1r. unfold postbn. rewrite Core. reflexivity.
+    + rewrite Hm0r. reflexivity.
+Qed.
+
+Lemma pit0_spec (fold : bool) (w : list (list R)) (b : option (list R)) (bn : option (list R * list R)) cin (m : list bool) (xs : list SR) co :
+  length m = length w -> PC.bias_ok R b (length m) ->
+  eqR (gateR (nth co m false) (pbn (if fold then None else bn) co
+         (addR (bcst b co) (sumR (map (fun ci => P0 w co ci (nth ci xs zeroR)) (seq 0 cin))))))
+      (of0 R (pit_linear_at r0 r1 radd rmul true fold w b bn cin m (fun ci => as0 R (nth ci xs zeroR)) co)).
+Proof.
+  intros Hlen Hb i. unfold of0.
+  assert (Core : (addR (bcst b co) (sumR (map (fun ci => P0 w co ci (nth ci xs zeroR)) (seq 0 cin)))) i
+                 = linear_at r0 radd rmul w b cin (fun ci => as0 R (nth ci xs zeroR)) co).
+  { rewrite bias_at. unfold linear_at. f_equal. rewrite sumR_at, map_map. reflexivity. }
+  destruct fold.
+  - destruct (nth co m false) eqn:E; cbn [gate].
+    + rewrite (PC.fold_alive_linear R r0 r1 radd rmul Hm0l Hm1r) by assumption. unfold postbn. cbn [bn_at]. exact Core.
+    + rewrite (PC.dead_out_zero_linear_fold R r0 r1 radd rmul Hadd0 Hm0l Hm0r) by assumption. reflexivity.
+  - unfold pit_linear_at. destruct (nth co m false) eqn:E; cbn [gate Conv.bit].
+    + rewrite Hm1r. unfold postbn. rewrite Core. reflexivity.
+    + rewrite Hm0r. reflexivity.
+Qed.
+
+Theorem cpit_node_spec n x al acc nd : cwf_node R r0 n al nd ->
+  Forall2 eqR (pit_node SR zeroR addR x acc (node_of R r0 r1 radd rmul nd)) (cpit_node R r0 r1 radd rmul x acc nd).
+Proof.
+  destruct nd as [c|src l m|src f|src mult f|a b|srcs]; cbn; try (intros; apply Forall2_eqR_refl).
+  intros [Hs Hw]. destruct l as [fold dw w b bn cin K d s tm K' sp|fold dw w b bn cin kh kw d s ph pw|fold w b bn cin]; cbn in Hw |- *.
+  - destruct Hw as ((Hlw & _) & Hb & _). rewrite Hlw. destruct dw; cbn; apply Forall2_map_seq; intros co Hco.
+    + apply (pit1_spec fold true w b bn cin K d s tm m (nth src acc []) co); auto.
+    + apply (pit1_spec fold false w b bn cin K d s tm m (nth src acc []) co); auto.
+  - destruct Hw as ((Hlw & _) & Hb & _). rewrite Hlw. destruct dw; cbn; apply Forall2_map_seq; intros co Hco.
+    + apply (pit2_spec fold true w b bn cin kh kw d s ph pw m (nth src acc []) co); auto.
+    + apply (pit2_spec fold false w b bn cin kh kw d s ph pw m (nth src acc []) co); auto.
+  - destruct Hw as ((Hlw & _) & Hb & _). rewrite Hlw. apply Forall2_map_seq; intros co Hco.
+    apply (pit0_spec fold w b bn cin m (nth src acc []) co); auto.
+Qed.
+
+
+(* ---- exported side: the abstract exported node IS the exported plain layer of Model/Conv.v *)
+Lemma bnsel (fold : bool) (bn : option (list R * list R)) (m : list bool) i y : cbn_ok R bn (length m) -> i < count_true m ->
+  bn_at r0 radd rmul (if fold then None else slice_bn m bn) i y = bn_at r0 radd rmul (if fold then None else bn) (nth i (kept m) 0) y.
+Proof. intros Hbn Hi. destruct fold; [reflexivity|]. apply PC.bn_slice_commutes; auto. Qed.
+
+Lemma exp1_full_spec (fold : bool) (w : w3 R) (b : option (list R)) (bn : option (list R * list R)) cin K d s tm K' sp (m min : list bool) (xs' : list SR) i :
+  cshape3 R w (length m) cin K -> cbias_ok R b (length m) -> cbn_ok R bn (length m) -> length tm = K ->
+  kept_lags K tm = export_lags K' sp -> length min = cin -> i < count_true m ->
+  eqR (pbn (if fold then None else bn) (nth i (kept m) 0)
+         (addR (bcst b (nth i (kept m) 0)) (sumR (map (fun j => P1 w tm K d s (nth i (kept m) 0) (nth j (kept min) 0) (nth j xs' zeroR)) (seq 0 (length (kept min)))))))
+      (of1 R (fun t => bn_at r0 radd rmul (if fold then None else slice_bn m bn) i
+                 (conv1d_at r0 radd rmul false (export_w3 false m min tm w) (export_bias m b) (count_true min) K' (Z.of_nat (sp * d)) (Z.of_nat s)
+                    (fun j => padl ((K' - 1) * (sp * d)) (as1 R (nth j xs' zeroR))) i t))).
+Proof.
+  intros (Hlw & Hc & Hk) Hb Hbn Htm Hl Hmin Hi idx. unfold of1, postbn. rewrite bnsel by assumption. f_equal.
+  assert (Hi' : i < length (kept m)) by (rewrite PC.kept_length; exact Hi).
+  destruct (PC.kept_nth_alive m i Hi') as [_ Hco]. set (co := nth i (kept m) 0) in *.
+  rewrite bias_at. unfold conv1d_at. rewrite PC.addbias_slice by (auto). fold co. f_equal.
+  rewrite sumR_at, map_map, PC.kept_length. apply f_equal. apply PC.map_seq_ext. intros j Hj.
+  assert (Hj' : j < length (kept min)) by (rewrite PC.kept_length; exact Hj).
+  destruct (PC.kept_nth_alive min j Hj') as [_ Hcj]. rewrite Hmin in Hcj.
+  unfold T1, of1. rewrite PC.w3at_time'.
+  rewrite (PC.w3at_export_full R tm m min w i j (length m) cin) by auto. fold co.
+  rewrite (PC.nth_map_in (select tm) _ j [] []) by (rewrite PC.select_length; [exact Hj|rewrite Hc by exact Hco; lia]).
+  rewrite (PC.select_nth min (nth co w []) [] j) by (try exact Hj; rewrite Hc by exact Hco; lia).
+  apply (PC.taps_export_eq R r0 r1 radd rmul Hadd0 Hm0l Hm0r Hm1l); auto; try apply (Hk co _ Hco Hcj).
+Qed.
+
+Lemma exp1_dw_spec (fold : bool) (w : w3 R) (b : option (list R)) (bn : option (list R * list R)) K d s tm K' sp (m min : list bool) (xs' : list SR) i :
+  cshape3 R w (length m) 1 K -> cbias_ok R b (length m) -> cbn_ok R bn (length m) -> length tm = K ->
+  kept_lags K tm = export_lags K' sp -> i < count_true m ->
+  eqR (pbn (if fold then None else bn) (nth i (kept m) 0)
+         (addR (bcst b (nth i (kept m) 0)) (P1 w tm K d s (nth i (kept m) 0) 0 (nth i xs' zeroR))))
+      (of1 R (fun t => bn_at r0 radd rmul (if fold then None else slice_bn m bn) i
+                 (conv1d_at r0 radd rmul true (export_w3 true m min tm w) (export_bias m b) (count_true min) K' (Z.of_nat (sp * d)) (Z.of_nat s)
+                    (fun j => padl ((K' - 1) * (sp * d)) (as1 R (nth j xs' zeroR))) i t))).
+Proof.
+  intros (Hlw & Hc & Hk) Hb Hbn Htm Hl Hi idx. unfold of1, postbn. rewrite bnsel by assumption. f_equal.
+  assert (Hi' : i < length (kept m)) by (rewrite PC.kept_length; exact Hi).
+  destruct (PC.kept_nth_alive m i Hi') as [_ Hco]. set (co := nth i (kept m) 0) in *.
+  rewrite bias_at. unfold conv1d_at. rewrite PC.addbias_slice by (auto). fold co. f_equal.
+  unfold T1, of1. rewrite PC.w3at_time'. rewrite (PC.w3at_export_dw R tm m min w i (length m)) by auto. fold co.
+  apply (PC.taps_export_eq R r0 r1 radd rmul Hadd0 Hm0l Hm0r Hm1l); auto; try (apply (Hk co 0 Hco); lia).
+Qed.
+
+Lemma exp2_full_spec (fold : bool) (w : w4 R) (b : option (list R)) (bn : option (list R * list R)) cin kh kw d s ph pw (m min : list bool) (xs' : list SR) i :
+  cshape2 w (length m) cin -> cbias_ok R b (length m) -> cbn_ok R bn (length m) -> length min = cin -> i < count_true m ->
+  eqR (pbn (if fold then None else bn) (nth i (kept m) 0)
+         (addR (bcst b (nth i (kept m) 0)) (sumR (map (fun j => P2 w kh kw d s ph pw (nth i (kept m) 0) (nth j (kept min) 0) (nth j xs' zeroR)) (seq 0 (length (kept min)))))))
+      (of2 R (fun h v => bn_at r0 radd rmul (if fold then None else slice_bn m bn) i
+                 (conv2d_at r0 radd rmul false (export_w4 false m min w) (export_bias m b) (count_true min) kh kw (Z.of_nat d) (Z.of_nat s) (Z.of_nat ph) (Z.of_nat pw)
+                    (fun j => as2 R (nth j xs' zeroR)) i h v))).
+Proof.
+  intros (Hlw & Hc) Hb Hbn Hmin Hi idx. unfold of2, postbn. rewrite bnsel by assumption. f_equal.
+  assert (Hi' : i < length (kept m)) by (rewrite PC.kept_length; exact Hi).
+  destruct (PC.kept_nth_alive m i Hi') as [_ Hco]. set (co := nth i (kept m) 0) in *.
+  rewrite bias_at. unfold conv2d_at. rewrite PC.addbias_slice by (auto). fold co. f_equal.
+  rewrite sumR_at, map_map, PC.kept_length. apply f_equal. apply PC.map_seq_ext. intros j Hj.
+  unfold T2, of2. rewrite (PC.w4at_export_full R m min w i j (length m) cin) by (auto; split; auto). fold co.
+  rewrite map_id. rewrite (PC.select_nth min (nth co w []) [] j) by (try exact Hj; rewrite Hc by exact Hco; lia). reflexivity.
+Qed.
+
+Lemma exp2_dw_spec (fold : bool) (w : w4 R) (b : option (list R)) (bn : option (list R * list R)) kh kw d s ph pw (m min : list bool) (xs' : list SR) i :
+  cshape2 w (length m) 1 -> cbias_ok R b (length m) -> cbn_ok R bn (length m) -> i < count_true m ->
+  eqR (pbn (if fold then None else bn) (nth i (kept m) 0)
+         (addR (bcst b (nth i (kept m) 0)) (P2 w kh kw d s ph pw (nth i (kept m) 0) 0 (nth i xs' zeroR))))
+      (of2 R (fun h v => bn_at r0 radd rmul (if fold then None else slice_bn m bn) i
+                 (conv2d_at r0 radd rmul true (export_w4 true m min w) (export_bias m b) (count_true min) kh kw (Z.of_nat d) (Z.of_nat s) (Z.of_nat ph) (Z.of_nat pw)
+                    (fun j => as2 R (nth j xs' zeroR)) i h v))).
+Proof.
+  intros (Hlw & Hc) Hb Hbn Hi idx. unfold of2, postbn. rewrite bnsel by assumption. f_equal.
+  assert (Hi' : i < length (kept m)) by (rewrite PC.kept_length; exact Hi).
+  destruct (PC.kept_nth_alive m i Hi') as [_ Hco]. set (co := nth i (kept m) 0) in *.
+  rewrite bias_at. unfold conv2d_at. rewrite PC.addbias_slice by (auto). fold co. f_equal.
+  unfold T2, of2, w4at, export_w4. rewrite (PC.nth_map_in _ (select m w) i [] []) by (rewrite PC.select_length; lia).
+  rewrite (PC.select_nth m w [] i) by lia. reflexivity.
+Qed.
+
+Lemma exp0_spec (fold : bool) (w : list (list R)) (b : option (list R)) (bn : option (list R * list R)) cin (m min : list bool) (xs' : list SR) i :
+  cshape2 w (length m) cin -> cbias_ok R b (length m) -> cbn_ok R bn (length m) -> length min = cin -> i < count_true m ->
+  eqR (pbn (if fold then None else bn) (nth i (kept m) 0)
+         (addR (bcst b (nth i (kept m) 0)) (sumR (map (fun j => P0 w (nth i (kept m) 0) (nth j (kept min) 0) (nth j xs' zeroR)) (seq 0 (length (kept min)))))))
+      (of0 R (bn_at r0 radd rmul (if fold then None else slice_bn m bn) i
+                 (linear_at r0 radd rmul (export_w2 m min w) (export_bias m b) (count_true min) (fun j => as0 R (nth j xs' zeroR)) i))).
+Proof.
+  intros (Hlw & Hc) Hb Hbn Hmin Hi idx. unfold of0, postbn. rewrite bnsel by assumption. f_equal.
+  assert (Hi' : i < length (kept m)) by (rewrite PC.kept_length; exact Hi).
+  destruct (PC.kept_nth_alive m i Hi') as [_ Hco]. set (co := nth i (kept m) 0) in *.
+  rewrite bias_at. unfold linear_at. rewrite PC.addbias_slice by (auto). fold co. f_equal.
+  rewrite sumR_at, map_map, PC.kept_length. apply f_equal. apply PC.map_seq_ext. intros j Hj.
+  unfold T0, of0, export_w2. rewrite (PC.nth_map_in _ (select m w) i [] []) by (rewrite PC.select_length; lia).
+  rewrite (PC.select_nth m w [] i) by lia. fold co.
+  rewrite (PC.select_nth min (nth co w []) r0 j) by (try exact Hj; rewrite Hc by exact Hco; lia). reflexivity.
+Qed.
+
+Theorem cexp_node_spec n x al acc' nd : cwf_node R r0 n al nd ->
+  Forall2 eqR (exp_node SR zeroR addR x al acc' (node_of R r0 r1 radd rmul nd)) (cexp_node R r0 radd rmul x al acc' nd).
+Proof.
+  destruct nd as [c|src l m|src f|src mult f|a b|srcs]; cbn; try (intros; apply Forall2_eqR_refl).
+  intros [Hs Hw]. destruct l as [fold dw w b bn cin K d s tm K' sp|fold dw w b bn cin kh kw d s ph pw|fold w b bn cin]; cbn in Hw |- *.
+  - destruct Hw as (Hsh & Hb & Hbn & Htm & Hl & Hmin). destruct dw; cbn.
+    + rewrite (PC.kept_length m). apply Forall2_map_seq; intros i Hi. apply exp1_dw_spec; auto.
+    + rewrite (PC.map_by_position _ (kept m)), (PC.kept_length m). apply Forall2_map_seq; intros i Hi. eapply exp1_full_spec; eauto.
+  - destruct Hw as (Hsh & Hb & Hbn & Hmin). destruct dw; cbn.
+    + rewrite (PC.kept_length m). apply Forall2_map_seq; intros i Hi. apply exp2_dw_spec; auto.
+    + rewrite (PC.map_by_position _ (kept m)), (PC.kept_length m). apply Forall2_map_seq; intros i Hi. eapply exp2_full_spec; eauto.
+  - destruct Hw as (Hsh & Hb & Hbn & Hmin).
+    rewrite (PC.map_by_position _ (kept m)), (PC.kept_length m). apply Forall2_map_seq; intros i Hi. eapply exp0_spec; eauto.
+Qed.
+
+(* ---- network level for concrete layers *)
+Lemma cnode_sound n x al P E nd : length x = n -> GoodR al P E -> cwf_node R r0 n al nd ->
+  InvR (calive_node R al nd) (cpit_node R r0 r1 radd rmul x P nd) (cexp_node R r0 radd rmul x al E nd).
+Proof.
+  intros Hx HG Hwf. rewrite <- (calive_node_of al nd).
+  eapply Inv_proper; [apply (cpit_node_spec n x al P nd Hwf)|apply (cexp_node_spec n x al E nd Hwf)|].
+  apply (node_sound SR eqR zeroR addR eqR_equiv addR_proper addR_0_l n x al P E); auto. apply cwf_node_wf. exact Hwf.
+Qed.
+
+Lemma crun_sound n x net : length x = n -> forall al P E, GoodR al P E -> cwf_acc R r0 n al net ->
+  GoodR (calive_acc R al net) (cpit_acc R r0 r1 radd rmul x P net) (cexp_acc R r0 radd rmul x al E net) /\
+  length (calive_acc R al net) = length al + length net.
+Proof.
+  intros Hx. induction net as [|nd net IH]; simpl; intros al P E HG Hwf.
+  - split; auto.
+  - destruct Hwf as [Hnd Hwf].
+    destruct (IH _ _ _ (Good_snoc SR eqR zeroR _ _ _ _ _ _ HG (cnode_sound _ _ _ _ _ _ Hx HG Hnd)) Hwf) as [H1 H2].
+    split; auto. rewrite H2, app_length. simpl. lia.
+Qed.
+
+Theorem export_sound_concrete : forall n net x, cwf R r0 n net -> length x = n ->
+  let al := calive_net R net in
+  let P := ceval_pit R r0 r1 radd rmul net x in
+  let E := ceval_exp R r0 radd rmul net x in
+  length al = length net /\ length P = length net /\ length E = length net /\
+  forall i, i < length net -> InvR (nth i al []) (nth i P []) (nth i E []).
+Proof.
+  intros n net x Hwf Hx. cbv zeta. unfold calive_net, ceval_pit, ceval_exp.
+  assert (G0 : GoodR [] [] []).
+  { split; [reflexivity|split; [reflexivity|]]. simpl. intros i Hi. inversion Hi. }
+  destruct (crun_sound n x net Hx [] [] [] G0 Hwf) as [(HP & HE & HI) HLn]. simpl in HLn.
+  rewrite HP, HE, HLn. split; [|split; [|split]]; auto. intros i Hi. apply HI. lia.
+Qed.
+
+Corollary export_sound_concrete_output : forall n net x, cwf R r0 n net -> length x = n ->
+  forall i, i < length net -> Forall (fun b => b = true) (nth i (calive_net R net) []) ->
+  Forall2 eqR (nth i (ceval_exp R r0 radd rmul net x) []) (nth i (ceval_pit R r0 r1 radd rmul net x) []).
+Proof.
+  intros n net x Hwf Hx i Hi Hall.
+  destruct (export_sound_concrete n net x Hwf Hx) as (_ & _ & _ & HI).
+  destruct (HI i Hi) as (HLn & _ & HF). rewrite select_forall_true in HF; auto.
+Qed.
+
+End ConcreteProofs.
